@@ -15,6 +15,7 @@ import r_panic
 import r_feat
 import r_rewrite
 import r_writedict
+import r_char
 
 NA = {}
 
@@ -167,7 +168,7 @@ PROPS = {
     "C12": {
         "rules": [r_misc.lattice_shape, r_misc.spaceopt, r_viterbi.traceback,
                   kind_scope("tokenizer", "unknown"), r_cand.cand, r_cand.charrange,
-                  r_misc.optkeep_tokenizer, r_reset.run_tokens],
+                  r_misc.optkeep_tokenizer, r_reset.run_tokens, r_char.run],
         "explanation": "LATTICE: build_lattice_inner resets first, tests reachability, SPACE "
                        "membership and the skipped run at start_node, adds candidates with "
                        "(start_node, start_word), connects EOS from start_node on every path; "
@@ -241,7 +242,7 @@ PROPS = {
     },
     "C03": {
         "rules": [r_cand.cand, r_cand.unkfall, r_cand.unkgroup, r_cand.unkspans, r_cand.charrange,
-                  r_reset.run_tokens, r_misc.optkeep_tokenizer],
+                  r_reset.run_tokens, r_misc.optkeep_tokenizer, r_char.run],
         "explanation": "CAND: at every processed position both lexicons are searched over the "
                        "same remaining text, every match is inserted and sets has_matched, and "
                        "gen_unk_words is called exactly once with that flag, the word start and "
@@ -389,7 +390,10 @@ PROPS = {
 
 # Rules added after the first full pass: text appended to the entries above.
 _ADDED = {
-    "C03": ("OPTKEEP: the Tokenizer option setters return their receiver with one field assigned "
+    "C03": ("CHARINFO: CharInfo::new and its accessors agree on the bit position of every field; "
+            "INVOKE/GROUP/LENGTH come from columns 1/2/3 and reach CharInfo::new in their own "
+            "positions; the primary category is the first listed and the id set ORs one bit per "
+            "listed category. OPTKEEP: the Tokenizer option setters return their receiver with one field assigned "
             "(max_grouping_len survives ignore_space and vice versa). CHARRANGE: parse_char_range stores (lower, upper + 1) and from_reader overwrites "
             "exactly [start, end) per range line, in file order. RESET (token scope): the "
             "per-sentence category and run-length tables are rebuilt before candidates are "
